@@ -8,7 +8,7 @@
     Clauses of one family are grouped in one theorem (one [Print Assumptions] per theorem). *)
 From Coq Require Import Reals ZArith List Permutation Sorted.
 From Coquelicot Require Import Coquelicot.
-From LP Require Import Num NumR C07_Model C07_Proofs_Cont C07_Proofs_ErfBound C07_Proofs_Disc C07_Proofs_Chi C07_Proofs_Ex C07_Proofs_Kde C07_Proofs_Coh C07_Proofs_Int Gen_C07_Formulas C07_GenTie.
+From LP Require Import Num NumR C07_Model C07_Proofs_Cont C07_Proofs_ErfBound C07_Proofs_Disc C07_Proofs_Chi C07_Proofs_Ex C07_Proofs_Kde C07_Proofs_Coh C07_Proofs_Int Gen_C07_Formulas C07_GenTie C07_Proofs_Gen.
 Import ListNotations.
 Local Open Scope R_scope.
 
@@ -650,3 +650,50 @@ Proof.
     (conj (tie_PDF_Maxwell_Boltzmann Ops LL pi_c gQ gP igQ gL ie bn) (tie_CDF_Maxwell_Boltzmann Ops LL pi_c gQ gP igQ gL ie bn))))))))))))))).
 Qed.
 Print Assumptions C07_generated_closed_forms_are_model.
+
+(** ** T-tie, second part (seventh pass): the functions with loops, std::vector and std::pair parameters.
+    tools/cxx2gallina_C07.py translates the counted loops  for(unsigned i = A; i <= B; i++) acc OP= e;  of CDF_Binomial, PMF_Poisson,
+    PDF/CDF_Chi_Bar_Square, Log_Likelihood_Poisson and Log_Likelihood_Poisson_Binned into the fold combinators [g_for] / [g_forp] of
+    Gen_C07_Formulas.v (fuel = trip count computed from the bounds in the source, vector elements read by index as in the source).
+    Each generated fold is the hand model's Fixpoint / fold over the zipped bins, proved by induction for every trip count and every
+    vector length, under the same literal laws.  PDF_Gauss_2D: the two std::pair reference parameters are Gallina pairs.
+    So the theorems above about [cdf_binomial], [pmf_poisson], the chi-bar mixtures and the four likelihoods are theorems about the
+    terms generated from the code; a changed bound, start index, accumulation, guard or index expression breaks this theorem. *)
+Theorem C07_generated_loops_are_model :
+  forall (T : Type) (Ops : NumOps T), LitLaws Ops ->
+  forall (pi_c : T) (gammaQ gammaP inv_gammaQ : T -> T -> res T) (gammaLn inv_erf : T -> res T) (binom : Z -> Z -> res T),
+  let G := fun (X : Type) (g : T -> (T -> T -> res T) -> (T -> T -> res T) -> (T -> T -> res T) -> (T -> res T) -> (T -> res T) -> (Z -> Z -> res T) -> X) =>
+             g pi_c gammaQ gammaP inv_gammaQ gammaLn inv_erf binom in
+  (forall x y mean sigma, G _ (g_PDF_Gauss_2D Ops) x y mean sigma = pdf_gauss_2d Ops pi_c x y (fst mean) (snd mean) (fst sigma) (snd sigma)) /\
+  (forall trials p x, G _ (g_CDF_Binomial Ops) trials p x = cdf_binomial Ops binom trials p x) /\
+  (forall mu k, (0 <= k)%Z -> G _ (g_PMF_Poisson Ops) mu k = pmf_poisson Ops mu k) /\
+  (forall x ws, G _ (g_PDF_Chi_Bar_Square Ops) x ws = pdf_chi_bar_square Ops gammaLn x ws) /\
+  (forall x ws, G _ (g_CDF_Chi_Bar_Square Ops) x ws = cdf_chi_bar_square Ops gammaP x ws) /\
+  (forall s n b, G _ (g_Log_Likelihood_Poisson Ops) s n b = log_likelihood_poisson Ops s n b) /\
+  (forall s n b, G _ (g_Likelihood_Poisson Ops) s n b = likelihood_poisson Ops s n b) /\
+  (forall ps os bs, G _ (g_Log_Likelihood_Poisson_Binned Ops) ps os bs = log_likelihood_poisson_binned Ops ps os bs) /\
+  (forall ps os bs, G _ (g_Likelihood_Poisson_Binned Ops) ps os bs = likelihood_poisson_binned Ops ps os bs).
+Proof.
+  exact (fun T Ops LL pi_c gQ gP igQ gL ie bn =>
+    conj (tie_PDF_Gauss_2D Ops LL pi_c gQ gP igQ gL ie bn) (conj (tie_CDF_Binomial Ops LL pi_c gQ gP igQ gL ie bn)
+    (conj (tie_PMF_Poisson Ops LL pi_c gQ gP igQ gL ie bn) (conj (tie_PDF_Chi_Bar_Square Ops LL pi_c gQ gP igQ gL ie bn)
+    (conj (tie_CDF_Chi_Bar_Square Ops LL pi_c gQ gP igQ gL ie bn) (conj (tie_Log_Likelihood_Poisson Ops LL pi_c gQ gP igQ gL ie bn)
+    (conj (tie_Likelihood_Poisson Ops LL pi_c gQ gP igQ gL ie bn) (conj (tie_Log_Likelihood_Poisson_Binned Ops LL pi_c gQ gP igQ gL ie bn)
+    (tie_Likelihood_Poisson_Binned Ops LL pi_c gQ gP igQ gL ie bn))))))))).
+Qed.
+Print Assumptions C07_generated_loops_are_model.
+
+(** The interval clause "the CDF difference over any interval equals the sum of the mass over it", stated directly about the terms
+    generated from the C++ of CDF_Binomial and PMF_Binomial (no hand model in the statement), intervals of any length, with
+    monotonicity over any number of steps and the range [0,1]; given that Binomial_Coefficient returns C(n,k). *)
+Theorem C07_generated_binomial_cdf_difference_is_sum pi_c gQ gP igQ gL ie binom : binom_spec binom ->
+  forall (n : nat) p (k d : nat), 0 <= p <= 1 -> (Z.of_nat n < 4294967296)%Z ->
+  let CDF := fun x => val (g_CDF_Binomial ROps pi_c gQ gP igQ gL ie binom (Z.of_nat n) p (Z.of_nat x)) in
+  let PMF := fun x => val (g_PMF_Binomial ROps pi_c gQ gP igQ gL ie binom (Z.of_nat n) p (Z.of_nat x)) in
+  CDF (k + S d)%nat - CDF k = sum_f_R0 (fun i => PMF (S k + i)%nat) d /\ CDF k <= CDF (k + d)%nat /\ 0 <= CDF k <= 1.
+Proof. exact (gen_binomial_interval pi_c gQ gP igQ gL ie binom). Qed.
+Print Assumptions C07_generated_binomial_cdf_difference_is_sum.
+
+(* non-vacuity: the exact binomial coefficient satisfies binom_spec, n = 3, p = 1/2 *)
+Example C07_generated_binomial_ex : exists binom, binom_spec binom /\ 0 <= 1/2 <= 1 /\ (Z.of_nat 3 < 4294967296)%Z.
+Proof. exact gen_binomial_ex. Qed.
